@@ -383,6 +383,14 @@ def _unordered(ctx: Ctx, model, fi, w: ast.With, pc: ast.Call) -> None:
                 if inner and rets == [inner[0]]:
                     lp = hl[0]
                     via_helper = norm(st_.targets[0] if isinstance(st_, ast.Assign) else st_.target)
+            elif len(hl) == 1 and isinstance(st_, ast.Expr) and hfi.qual.startswith(fi.qual + ".") and not rets:
+                # a local closure that appends to a list of the enclosing function
+                inner = [norm(c.func.value) for s_ in hl[0].body for c in calls_in(s_) if isinstance(c.func, ast.Attribute) and c.func.attr == "append"]
+                local = {t.id for n in walk_ordered(hfi.node) if isinstance(n, (ast.Assign, ast.AnnAssign)) and n.value is not None
+                         for t in ast.walk(n.targets[0] if isinstance(n, ast.Assign) else n.target) if isinstance(t, ast.Name)}
+                if inner and inner[0] not in local:
+                    lp = hl[0]
+                    via_helper = inner[0]
     if lp is None:
         raise AnalysisError(f"{fi.qual}: imap_unordered is consumed neither by a for loop nor by an iterator loop")
     sinks = [norm(c.func.value) for s in lp.body for c in calls_in(s) if isinstance(c.func, ast.Attribute) and c.func.attr == "append"]
